@@ -1,4 +1,4 @@
-(* C10 — line wrapping (MCNP_Object.wrap_string_for_mcnp / textwrap.TextWrapper._wrap_chunks).
+(* C10 — line wrapping (MCNP_Object.wrap_string_for_mcnp, MCNP_Object._wrap_line, textwrap.TextWrapper._wrap_chunks).
    Headline theorems only; the proofs are in Proofs/WrapProofs.v. *)
 From Coq Require Import List String Ascii Arith Bool.
 From MPV Require Import Model.Wire Model.Wrap Proofs.WrapProofs.
@@ -49,13 +49,51 @@ Theorem C10_identity : forall W ii si chunks,
 Proof. exact wrap_identity. Qed.
 Print Assumptions C10_identity.
 
-(* 6. wrap_string_for_mcnp: every output line fits the limit *)
-Theorem C10_lines_width : forall W cont first lines out,
-  cont < W -> wrap_lines W cont first lines = Some out -> Forall (fun l => slen l <= W) out.
-Proof. exact wrap_lines_width. Qed.
-Print Assumptions C10_lines_width.
+(* ---- MCNP_Object._wrap_line (one source line) and wrap_string_for_mcnp (all lines) ---- *)
 
-(* 7. when no chunk is longer than a continuation line, re-splitting the wrapped lines at blanks
+(* 6. _wrap_line always returns: no IndexError on ret[-1], the fuel of the model suffices.
+      W is the column limit, ii/si the initial/continuation indent (MontePy: "" or 5 blanks / 5 blanks) *)
+Theorem C10_line_total : forall W ii si l,
+  2 < W -> slen ii < W -> slen si + 2 < W -> blank_data_fits W ii (l_text l) -> chunks_ok l ->
+  exists out, wrap_line W ii si l = WOk out.
+Proof. exact wrap_line_total. Qed.
+Print Assumptions C10_line_total.
+
+(* 7. every line _wrap_line returns fits the limit, comment continuation lines included (their indent is the
+      continuation indent + "$ ": hence slen si + 2 < W, i.e. 7 < W for MontePy) — unless the text before the
+      first '$' is blank and reaches the limit *)
+Theorem C10_line_width_partial : forall W ii si l out,
+  2 < W -> slen ii < W -> slen si + 2 < W -> blank_data_fits W ii (l_text l) ->
+  wrap_line W ii si l = WOk out -> Forall (fun x => slen x <= W) out.
+Proof. exact wrap_line_width. Qed.
+Print Assumptions C10_line_width_partial.
+
+Theorem C10_line_width_refuted :
+  exists W ii si l out,
+    7 < W /\ slen ii < W /\ slen si + 2 < W /\ wrap_line W ii si l = WOk out /\
+    ~ Forall (fun x => slen x <= W) out.
+Proof. exact wrap_line_width_refuted. Qed.
+Print Assumptions C10_line_width_refuted.
+
+Theorem C10_lines_width_partial : forall W cont (first : bool) lines out,
+  cont + 2 < W ->
+  Forall (fun l => blank_data_fits W (if first then "" else blanks cont) (l_text l)) lines ->
+  wrap_lines W cont first lines = WOk out -> Forall (fun x => slen x <= W) out.
+Proof. exact wrap_lines_width. Qed.
+Print Assumptions C10_lines_width_partial.
+
+(* 8. the first line of a source line starts with the initial indent; every other line starts with the
+      continuation indent (5 blanks), or is a "c " line continuing a line MontePy takes for a comment line *)
+Theorem C10_line_indent : forall W ii si l out,
+  wrap_line W ii si l = WOk out ->
+  match out with
+  | [] => True
+  | l0 :: rest => String.prefix ii l0 = true /\ Forall (cont_ok si (l_text l)) rest
+  end.
+Proof. exact wrap_line_indent. Qed.
+Print Assumptions C10_line_indent.
+
+(* 9. when no chunk is longer than a continuation line, re-splitting the wrapped lines at blanks
       gives exactly the tokens of the text *)
 Theorem C10_resplit : forall W cont text ls,
   cont < W ->
@@ -65,15 +103,7 @@ Theorem C10_resplit : forall W cont text ls,
 Proof. exact wrap_resplit. Qed.
 Print Assumptions C10_resplit.
 
-(* 8. ... but not when '$' comments are taken into account: comment text becomes data *)
-Theorem C10_resplit_comment_refuted :
-  exists W text ls,
-    wrap_chunks W "" (blanks 5) (split_ws text) = Some ls /\
-    List.concat (map (fun l => words (data_part l)) ls) <> words (data_part text).
-Proof. exact wrap_resplit_comment_refuted. Qed.
-Print Assumptions C10_resplit_comment_refuted.
-
-(* 9. non-vacuity: a call that satisfies the premises of C10_width and C10_resplit and wraps
+(* non-vacuity: a call that satisfies the premises of C10_width and C10_resplit and wraps
       into three lines *)
 Example C10_width_nonvacuous :
   wrap_chunks 20 "" (blanks 5) (split_ws "1 0 -1 2 -3 4 -5 6 imp:n=1 vol=12345")
@@ -89,6 +119,6 @@ Print Assumptions C10_resplit_nonvacuous.
 
 (* a written line never consists of blanks only: MCNP would read it as the end of the block *)
 Theorem C10_no_blank_line : forall W cont first lines out,
-  wrap_lines W cont first lines = Some out -> Forall (fun l => all_blank l = false) out.
+  wrap_lines W cont first lines = WOk out -> Forall (fun l => all_blank l = false) out.
 Proof. exact wrap_lines_no_blank_line. Qed.
 Print Assumptions C10_no_blank_line.
